@@ -120,6 +120,16 @@ def iter_summary(F, b):
         k = n.get("k")
         if k == "AssignOp" and n["l"].get("k") == "Field" and n["l"]["name"] in ("next_bucket", "next_shard"):
             S["cursor_ops"].append((n["l"]["name"], n["op"], repr(canon(W.T.term(n["r"]), W))))
+            # which regime are we in? (buckets at least as fine as shards: aggregate; coarser: split)
+            bh_ = [a for a in K.atoms if a[0] in ("le", "ne")]
+            regime = "?"
+            for a in K.atoms:
+                if a[0] == "le" and a[1][0] == "field" and a[2][0] == "field":
+                    if a[1][2] == "shard_high_bits" and a[2][2] == "bucket_high_bits" and a[3] <= 0:
+                        regime = "aggregate"       # shard bits <= bucket bits
+                    if a[1][2] == "bucket_high_bits" and a[2][2] == "shard_high_bits" and a[3] <= -1:
+                        regime = "split"           # bucket bits < shard bits
+            S.setdefault("cursor_by_regime", []).append((regime, n["l"]["name"], repr(canon(W.T.term(n["r"]), W))))
         if k == "Struct" and range_of(F, n) is not None:
             lo, hi, incl = range_of(F, n)
             if lo is not None and hi is not None:
@@ -164,6 +174,10 @@ def r18_3(ctx, rr):
         want_sub = {("next_bucket", "+=", repr(to_aggr)), ("next_bucket", "+=", repr(("int", 1))), ("next_shard", "+=", repr(("int", 1)))}
         ok = want_sub <= set(cur) and all(c[1] == "+=" for c in cur) and set(c[2] for c in cur) <= {repr(to_aggr), repr(("int", 1))}
         rr.check(ok, "%s:cursors" % nm, "%s must advance next_bucket by 2^(bucket_high_bits - shard_high_bits) after aggregating (by 1 after splitting) and next_shard by 1 per shard returned; found %s" % (x.key, cur), x.span)
+        # per regime: aggregating consumes 2^(bucket - shard) buckets on every path, splitting one
+        rr.instances += 1
+        bad_reg = [c for c in S.get("cursor_by_regime", []) if c[1] == "next_bucket" and ((c[0] == "aggregate" and c[2] != repr(to_aggr) and not (c[2] == repr(("int", 1)) and "memory" in nm)) or (c[0] == "split" and c[2] != repr(("int", 1))))]
+        rr.check(not bad_reg, "%s:cursor-step-matches-regime" % nm, "%s advances next_bucket by %s in the %s regime: aggregating a shard consumes 2^(bucket_high_bits - shard_high_bits) buckets on every path (an empty shard included), splitting consumes one" % (x.key, [c[2][:60] for c in bad_reg], [c[0] for c in bad_reg]), x.span)
         rr.instances += 1
         want_rng = (repr(nb), repr(mk_op("+", nb, to_aggr)))
         rr.check(want_rng in S["ranges"], "%s:aggregate-range" % nm, "%s must aggregate exactly the buckets next_bucket .. next_bucket + 2^(bucket_high_bits - shard_high_bits)" % x.key, x.span)
@@ -278,3 +292,49 @@ def r18_5(ctx, rr):
         rr.ob(ok2, key=key2)
         if not ok2:
             rr.violate(key2, "`%s` is not preceded, in the same pass, by a seek of that bucket to offset 0: a pass that follows an abandoned one (a borrowed iteration dropped early) starts reading wherever the file was left" % show(F, r)[:90], F.loc(r))
+
+
+@rule("R07.10", props=["C07", "C08", "C18"], floor=20, title="ToSig for slices hashes every byte of the key (the u8 view of the whole slice)")
+def r07_10(ctx, rr):
+    """Two distinct slice keys must get different signatures for some seed. A byte view whose length is the number
+    of elements hashes only the first len() bytes of a &[u32]/&[u64] key: keys that agree there collide for every seed."""
+    F = ctx.F()
+    bodies = [b for b in F.fns() if b.name == "to_sig" and b.file.endswith("utils/sig_store.rs") and (b.impl_self or "").startswith("&[")]
+    if len(bodies) < 20:
+        raise AnchorMissing("expected the ToSig impls for slices (two per element type), found %d" % len(bodies))
+    for b in bodies:
+        key_id = b.params[0]["id"]
+        hashes = [n for n in walk(b.body) if n.get("k") == "Call" and "xxh3" in (F.callee(n) or "")]
+        rr.instances += 1
+        ok = False
+        why = "no xxh3 call"
+        if hashes:
+            arg = hashes[0]["args"][0]
+            # resolve the local to its initialiser
+            e = arg
+            for _ in range(3):
+                if e.get("k") == "Path" and e.get("res") == "local":
+                    ls = [x for x in walk(b.body) if x.get("k") == "LetStmt" and x["pat"].get("k") == "PBind" and x["pat"]["id"] == e["id"] and "init" in x]
+                    if ls:
+                        e = ls[0]["init"]
+                        continue
+                break
+            calls = [x for x in walk(e) if x.get("k") in ("MethodCall", "Call")]
+            names = [x.get("name") or (F.callee(x) or "").split("::")[-1] for x in calls]
+            if "align_to" in names:
+                # align_to::<u8>() of the key itself: the middle part is the whole slice
+                at = [x for x in calls if x.get("name") == "align_to"][0]
+                ok = any(y.get("k") == "Path" and y.get("id") == key_id for y in walk(at["recv"])) and any(y.get("k") == "Field" and y["name"] == "1" for y in walk(e))
+                why = "align_to of something else than the key / not its middle part"
+            elif "from_raw_parts" in names:
+                fr = [x for x in calls if (F.callee(x) or "").endswith("from_raw_parts")][0]
+                ln = fr["args"][1]
+                txt = show(F, ln)
+                ok = "size_of_val" in txt or ("size_of" in txt and "len" in txt and "*" in txt)
+                why = "from_raw_parts with length `%s` (the number of elements, not of bytes)" % txt[:60]
+            else:
+                why = "the hashed bytes are `%s`" % show(F, e)[:80]
+        key = "%s:hashes-whole-key" % short_fn(b.key)
+        rr.ob(ok, key=key)
+        if not ok:
+            rr.violate(key, "%s does not hash the whole key: %s; distinct keys that agree on the hashed prefix get the same signature for every seed (duplicate-key errors on duplicate-free input, or a build that never succeeds)" % (b.key, why), b.span)
